@@ -12,16 +12,21 @@ import (
 	"reflect"
 	"runtime"
 	"strconv"
+	"os"
+	"path/filepath"
 	"strings"
 	"sync"
+	"sync/atomic"
 	"time"
 
+	"github.com/spf13/afero"
 	"go.uber.org/zap"
 
 	"github.com/yandex/pandora/core"
 	"github.com/yandex/pandora/core/aggregator"
 	"github.com/yandex/pandora/core/aggregator/netsample"
 	"github.com/yandex/pandora/core/coreutil"
+	"github.com/yandex/pandora/core/datasink"
 )
 
 type memSink struct{ f *trackFile }
@@ -55,6 +60,9 @@ func runErrString(err error) (string, int64) {
 	}
 	var d *aggregator.SomeSamplesDropped
 	if errors.As(err, &d) && err.Error() == d.Error() {
+		if err.Error() != fmt.Sprintf("%d samples were dropped", d.Dropped) {
+			return "droppedtext:" + drv_clean(err.Error()), d.Dropped
+		}
 		return fmt.Sprintf("dropped:%d", d.Dropped), d.Dropped
 	}
 	if errors.As(err, &d) {
@@ -65,31 +73,149 @@ func runErrString(err error) (string, int64) {
 
 func atoi(s string) int { n, _ := strconv.Atoi(s); return n }
 
+// failingSink: accepts failAfter bytes, then every Write fails (disk full); still records closes.
+type failSink struct {
+	*trackFile
+	limit int
+	mu2   sync.Mutex
+	taken int
+	fails int
+}
+
+var errSinkFull = errors.New("c06: no space left on device")
+
+func (f *failSink) Write(p []byte) (int, error) {
+	f.mu2.Lock()
+	room := f.limit - f.taken
+	if room < 0 {
+		room = 0
+	}
+	n := len(p)
+	if n > room {
+		n = room
+	}
+	f.taken += n
+	failed := n < len(p)
+	if failed {
+		f.fails++
+	}
+	f.mu2.Unlock()
+	if n > 0 {
+		_, _ = f.trackFile.Write(p[:n])
+	} else if failed {
+		// count a write attempt after close as such even when nothing is accepted
+		f.trackFile.mu.Lock()
+		if f.trackFile.closes > 0 {
+			f.trackFile.writeAfterClose++
+		}
+		f.trackFile.mu.Unlock()
+	}
+	if failed {
+		return n, errSinkFull
+	}
+	return n, nil
+}
+
+func (f *failSink) WriteString(s string) (int, error) { return f.Write([]byte(s)) }
+
+type failFs struct {
+	afero.Fs
+	limit int
+	file  *failSink
+}
+
+func (t *failFs) Create(name string) (afero.File, error) {
+	f, err := t.Fs.Create(name)
+	if err != nil {
+		return nil, err
+	}
+	t.file = &failSink{trackFile: &trackFile{File: f}, limit: t.limit}
+	return t.file, nil
+}
+
+type failMemSink struct{ f *failSink }
+
+func (m *failMemSink) OpenSink() (io.WriteCloser, error) { return m.f, nil }
+
+// fdOpenFor: is some descriptor of this process still open on path?
+func fdOpenFor(path string) bool {
+	ents, err := os.ReadDir("/proc/self/fd")
+	if err != nil {
+		return false
+	}
+	for _, e := range ents {
+		if l, err := os.Readlink("/proc/self/fd/" + e.Name()); err == nil && l == path {
+			return true
+		}
+	}
+	return false
+}
+
+const staleLine = "STALE LINE OF AN EARLIER RUN\n"
+
+// runQueue: G reporter goroutines × K samples through a real aggregator.
+//
+//	late=0  every Report returns before the cancel (end of a run)
+//	late=1  the cancel comes while reporters are still reporting (SIGINT, failure of another task): the Report
+//	        calls completed before cancel() was called are known (sequence numbers)
+//	sink=file  the destination is a real file that already holds stale content (core/datasink/file.go, fs.Create)
+//	fail=N  the sink accepts N bytes, then every write fails
 func runQueue(kv map[string]string) string {
 	agg := kv["agg"]
 	g, k, q := atoi(kv["g"]), atoi(kv["k"]), atoi(kv["q"])
 	flush := time.Duration(atoi(kv["flush"])) * time.Millisecond
 	wrap := kv["wrap"] == "1"
 	jit := int64(atoi(kv["jit"]))
+	late := kv["late"] == "1"
+	useFile := kv["sink"] == "file"
+	failAfter := atoi(kv["fail"])
 	n := g * k
 
 	var run func(ctx context.Context) error
 	var report func(gi, ki int)
 	var file *trackFile
+	var fsink *failSink
+	var path string
+	if useFile {
+		dir, err := os.MkdirTemp("/var/tmp", "c06-sink-")
+		if err != nil {
+			return "inconclusive=tmpdir"
+		}
+		defer os.RemoveAll(dir)
+		path = filepath.Join(dir, "result.log")
+		if err := os.WriteFile(path, bytes.Repeat([]byte(staleLine), 3000), 0o644); err != nil {
+			return "inconclusive=tmpfile"
+		}
+	}
 	switch agg {
 	case "phout":
-		fs := newTrackFs()
 		conf := netsample.DefaultPhoutConfig()
 		conf.Destination = "phout.log"
 		conf.ID = true
 		conf.SampleQueueSize = q
 		conf.FlushTime = flush
 		conf.Buffer = bufConf(atoi(kv["buf"]))
+		var fs afero.Fs
+		switch {
+		case useFile:
+			conf.Destination = path
+			fs = afero.NewOsFs()
+		case failAfter > 0:
+			fs = &failFs{Fs: afero.NewMemMapFs(), limit: failAfter}
+		default:
+			fs = newTrackFs()
+		}
 		a, err := netsample.NewPhout(fs, conf)
 		if err != nil {
 			return "err=new:" + drv_clean(err.Error())
 		}
-		file = fs.file
+		switch f := fs.(type) {
+		case *trackFs:
+			file = f.file
+		case *failFs:
+			fsink = f.file
+			file = fsink.trackFile
+		}
 		wrapped := netsample.WrapAggregator(a)
 		run = func(ctx context.Context) error { return a.Run(ctx, core.AggregatorDeps{Log: zap.NewNop()}) }
 		report = func(gi, ki int) {
@@ -105,9 +231,18 @@ func runQueue(kv map[string]string) string {
 			}
 		}
 	case "jsonlines":
-		file = &trackFile{}
 		conf := aggregator.DefaultJSONLinesAggregatorConfig()
-		conf.Sink = &memSink{file}
+		switch {
+		case useFile:
+			conf.Sink = datasink.NewFile(afero.NewOsFs(), datasink.FileConfig{Path: path})
+		case failAfter > 0:
+			file = &trackFile{}
+			fsink = &failSink{trackFile: file, limit: failAfter}
+			conf.Sink = &failMemSink{fsink}
+		default:
+			file = &trackFile{}
+			conf.Sink = &memSink{file}
+		}
 		conf.ReporterConfig.SampleQueueSize = q
 		conf.FlushInterval = flush
 		conf.BufferSizeConfig = bufConf(atoi(kv["buf"]))
@@ -136,6 +271,13 @@ func runQueue(kv map[string]string) string {
 		}()
 		res <- run(ctx)
 	}()
+	// seqOf[g][k] = position of that Report call among all completed ones (1-based), 0 = not made
+	seqOf := make([][]int64, g)
+	for i := range seqOf {
+		seqOf[i] = make([]int64, k)
+	}
+	var seq atomic.Int64
+	var stop atomic.Bool
 	var wg sync.WaitGroup
 	for gi := 0; gi < g; gi++ {
 		wg.Add(1)
@@ -143,15 +285,36 @@ func runQueue(kv map[string]string) string {
 			defer wg.Done()
 			r := rand.New(rand.NewSource(jit*1000 + int64(gi)))
 			for ki := 0; ki < k; ki++ {
+				if stop.Load() {
+					return
+				}
 				report(gi, ki)
+				seqOf[gi][ki] = seq.Add(1)
 				if jit%3 != 0 && r.Intn(4) == 0 {
 					runtime.Gosched()
 				}
 			}
 		}(gi)
 	}
-	wg.Wait()
-	cancel() // every Report has returned
+	pre := int64(-1)
+	if late {
+		// cancel when about (jit%7+1)/8 of the reports are made; reporters notice a little later
+		target := int64(n) * (jit%7 + 1) / 8
+		deadline := time.Now().Add(20 * time.Second)
+		for seq.Load() < target && time.Now().Before(deadline) {
+			runtime.Gosched()
+		}
+		pre = seq.Load()
+		cancel()
+		if jit%2 == 0 {
+			time.Sleep(time.Duration(jit%5) * 20 * time.Microsecond)
+		}
+		stop.Store(true)
+		wg.Wait()
+	} else {
+		wg.Wait()
+		cancel() // every Report has returned
+	}
 	var runErr error
 	select {
 	case runErr = <-res:
@@ -160,17 +323,31 @@ func runQueue(kv map[string]string) string {
 	case <-time.After(60 * time.Second):
 		return "HANG"
 	}
-	data, closedOK := file.snapshot()
+	made := int(seq.Load())
+	if pre < 0 {
+		pre = int64(made)
+	}
+	var data []byte
+	var closedOK bool
+	if useFile {
+		closedOK = !fdOpenFor(path)
+		var err error
+		if data, err = os.ReadFile(path); err != nil {
+			return "err=no-result-file"
+		}
+	} else {
+		data, closedOK = file.snapshot()
+	}
 	errS, dropped := runErrString(runErr)
 
 	// decode every line
 	type gk struct{ g, k int }
-	var seq []gk
+	var seqw []gk
 	bad := 0
 	lines := bytes.Split(data, []byte{'\n'})
 	tail := lines[len(lines)-1]
 	lines = lines[:len(lines)-1]
-	if len(tail) != 0 {
+	if len(tail) != 0 && failAfter == 0 {
 		bad++
 	}
 	for _, l := range lines {
@@ -191,16 +368,20 @@ func runQueue(kv map[string]string) string {
 				gi, ki = js.R, js.K
 			}
 		}
+		// a line nobody reported is as bad as a line that does not decode
+		if ok && (gi < 0 || gi >= g || ki < 0 || ki >= k || seqOf[gi][ki] == 0) {
+			ok = false
+		}
 		if !ok {
 			bad++
 			continue
 		}
-		seq = append(seq, gk{gi, ki})
+		seqw = append(seqw, gk{gi, ki})
 	}
 	last := map[int]int{}
 	seen := map[gk]bool{}
 	order, dup := 1, 0
-	for _, e := range seq {
+	for _, e := range seqw {
 		if seen[e] {
 			dup++
 			continue
@@ -211,10 +392,26 @@ func runQueue(kv map[string]string) string {
 		}
 		last[e.g] = e.k
 	}
-	obs := fmt.Sprintf("reports=%d lines=%d dropped=%d err=%s order=%d dup=%d bad=%d closed=%d", n, len(lines), dropped, errS, order, dup, bad, b2i(closedOK))
-	if n <= 300 && bad == 0 {
+	obs := fmt.Sprintf("reports=%d lines=%d dropped=%d err=%s order=%d dup=%d bad=%d closed=%d", made, len(lines), dropped, errS, order, dup, bad, b2i(closedOK))
+	if late {
+		miss := 0
+		for gi := range seqOf {
+			for ki, sq := range seqOf[gi] {
+				if sq != 0 && sq <= pre && !seen[gk{gi, ki}] {
+					miss++
+				}
+			}
+		}
+		obs += fmt.Sprintf(" pre=%d miss=%d", pre, miss)
+	}
+	if failAfter > 0 {
+		fsink.mu2.Lock()
+		obs += fmt.Sprintf(" failed=%d", b2i(fsink.fails > 0))
+		fsink.mu2.Unlock()
+	}
+	if n <= 300 && bad == 0 && !late && failAfter == 0 {
 		var w []string
-		for _, e := range seq {
+		for _, e := range seqw {
 			w = append(w, fmt.Sprintf("%d.%d", e.g, e.k))
 		}
 		if len(w) > 0 {
